@@ -22,7 +22,7 @@ import (
 
 	_ "verif/dagx"
 	"verif/fw"
-	_ "verif/px"
+	"verif/px"
 )
 
 var (
@@ -40,6 +40,7 @@ var (
 	fVerif    = flag.String("verif", "/verif", "verif directory")
 	fRaceBin  = flag.String("racebin", "", "path of the -race build (coordinator)")
 	fWorkers  = flag.Int("workers", 0, "")
+	fDriver   = flag.String("driver", "", "observe one request in this process and print the outcome tuple")
 )
 
 func seedFromEnv() uint64 {
@@ -57,6 +58,8 @@ func seedFromEnv() uint64 {
 func main() {
 	flag.Parse()
 	switch {
+	case *fDriver != "":
+		os.Exit(px.DriverMain(*fDriver))
 	case *fList:
 		ids := []string{}
 		for id := range fw.Registry {
@@ -463,8 +466,10 @@ func coordinate() int {
 		realViol++
 		os.MkdirAll(repDir, 0o755)
 		name := fmt.Sprintf("%s-s%d-i%d.json", tier, seed, v.Idx)
-		if v.Idx < 0 {
+		if v.Idx == -1 {
 			name = fmt.Sprintf("%s-s%d-race%d.json", tier, seed, realViol)
+		} else if v.Idx < 0 {
+			name = fmt.Sprintf("%s-s%d-found%d.json", tier, seed, realViol)
 		}
 		path := filepath.Join(repDir, name)
 		fw.WriteJSON(path, map[string]interface{}{"property": c.ID, "tier": tier, "seed": seed, "idx": v.Idx, "msg": v.Msg, "detail": v.Detail, "case": v.Sample})
@@ -588,10 +593,11 @@ func replay(path string) int {
 		return 3
 	}
 	var rec struct {
-		Property string `json:"property"`
-		Tier     string `json:"tier"`
-		Seed     uint64 `json:"seed"`
-		Idx      int    `json:"idx"`
+		Property string          `json:"property"`
+		Tier     string          `json:"tier"`
+		Seed     uint64          `json:"seed"`
+		Idx      int             `json:"idx"`
+		Detail   json.RawMessage `json:"detail"`
 	}
 	if err := json.Unmarshal(b, &rec); err != nil {
 		fmt.Fprintln(os.Stderr, err)
@@ -601,6 +607,17 @@ func replay(path string) int {
 	if c == nil {
 		fmt.Fprintln(os.Stderr, "unknown check", rec.Property)
 		return 3
+	}
+	if rec.Idx == -2 && c.ReplayDetail != nil {
+		r := c.ReplayDetail(rec.Detail)
+		out, _ := json.MarshalIndent(map[string]interface{}{"case": r.Sample, "violation": r.Viol, "inconclusive": r.Inconclusive}, "", " ")
+		fmt.Println(string(out))
+		if r.Viol != nil {
+			fmt.Printf("VIOLATION property=%s replay=%s\n", rec.Property, path)
+			return 1
+		}
+		fmt.Println("held on replay")
+		return 0
 	}
 	if rec.Idx < 0 {
 		fmt.Printf("race report: re-run `./check %s %s` with VERIF_SEED=%d to reproduce the workload\n", rec.Property, rec.Tier, rec.Seed)
